@@ -2,6 +2,8 @@ CONSTANTS
   MaxF = 4
   MaxActs = 7
   MaxSub = 3
+  Menus = {1, 2, 3, 4, 5}
+  Pin = FALSE
 SPECIFICATION GenSpec
 CONSTRAINT GenConstraint
 CHECK_DEADLOCK FALSE
